@@ -1022,14 +1022,22 @@ impl TransactionalMemory {
                 .value(),
         );
 
-        let mut state = self.state.lock().unwrap();
-        state.allocators = Some(Allocators {
+        let allocators = Allocators {
             region_tracker,
             region_allocators,
-        });
+        };
+
+        let mut state = self.state.lock().unwrap();
+        let layout = state.header.layout();
+        // The file may have been truncated below pages that are still in use
+        if !allocators.can_resize_to(layout) {
+            return Err(StorageError::Corrupted(
+                "Allocator state references pages beyond the end of the file".to_string(),
+            ));
+        }
+        state.allocators = Some(allocators);
 
         // Resize the allocators to match the current file size
-        let layout = state.header.layout();
         state.allocators_mut().resize_to(layout);
         drop(state);
 
